@@ -141,7 +141,8 @@ struct C02 : Property {
     for (int i = 0; i < n; i++) {
       double x = (r.next() >> 11) * (1.0 / 9007199254740992.0);
       json op = {{"t_ms", r.range(0, 400)}, {"target", r.chance(0.55) ? "server" : "client"}, {"spoof", r.chance(0.6)}, {"salt", r.next() & 0xffffff}};
-      if (x < 0.10) op["kind"] = "blind";
+      if (x < 0.08) op["kind"] = "blind";
+      else if (x < 0.10) op["kind"] = "long_options";     // a datagram near the receive-buffer size whose option area is long and malformed
       else if (x < 0.35) { op["kind"] = "crafted"; op["target"] = "server"; }
       else if (x < 0.9) { op["kind"] = "mutate"; op["k"] = r.range(0, 60); }
       else { op["kind"] = "replay"; op["k"] = r.range(0, 60); }
@@ -243,6 +244,19 @@ struct C02 : Property {
         Bytes b;
         std::string kind = o.value("kind", "blind");
         if (kind == "crafted") b = crafted(r);
+        else if (kind == "long_options") {
+          // header (any type, request or response code), optional token, then an option area of 600..1450 bytes: either a run of tiny
+          // well-formed options that ends in a malformed one, or a malformed first option followed by filler
+          size_t tl = (size_t)r.range(0, 8);
+          b = {(uint8_t)(0x40 | r.below(4) << 4 | tl), (uint8_t)(r.chance(0.7) ? r.range(1, 4) : 0x45), (uint8_t)r.below(256), (uint8_t)r.below(256)};
+          Bytes tok = r.bytes(tl);
+          b.insert(b.end(), tok.begin(), tok.end());
+          size_t area = (size_t)r.range(600, 1450), room = 1470 - b.size();
+          if (area > room) area = room;
+          static const uint8_t bad[] = {0xF1, 0x1F, 0xF0, 0xFF, 0xE1, 0xD0, 0xEE};
+          if (r.chance(0.5)) { b.push_back(bad[r.below(7)]); while (area-- > 1) b.push_back(r.chance(0.5) ? (uint8_t)r.below(256) : 0x11); }
+          else { uint8_t fill = (uint8_t)r.pick(std::vector<int>{0x00, 0x10, 0x01, 0x11}); while (area > 2) { b.push_back(fill); if (fill & 0x0f) { b.push_back('x'); area--; } area--; } b.push_back(bad[r.below(7)]); b.push_back(0x41); }
+        }
         else if (kind == "blind" || seen.empty()) b = r.bytes((size_t)r.range(0, 60));
         else {
           // the k-th datagram seen so far in the direction of the target (else any)
